@@ -336,14 +336,14 @@ class CallMixin:
             zs.append(z)
         caller = st.fid
         st.fid = st.new_frame(binds, parent=caller)
-        npc = len(st.pc)
+        npc = len(st.pc) - st.closed_defs
         self.in_quant += 1
         try:
             body = self.truth(self.pure(args[-1], st), st)
         finally:
             self.in_quant -= 1
             st.fid = caller
-        if len(st.pc) != npc:
+        if len(st.pc) - st.closed_defs != npc:
             raise ContractError("quantifier body needs definitional facts: %s" % ast.unparse(node)[:80])
         return VBool(mk(zs, body))
 
@@ -379,14 +379,17 @@ class CallMixin:
             if fid not in s.frames:
                 s.frames[fid] = fr
         s.fid = st.fid
-        s.heap = dict(heap)
+        s.heap = dict(st.heap)
+        s.heap.update(heap)
         s.pc = st.pc
         s.ghost = dict(ghost)
         s.snaps = st.snaps
         s.path = st.path
         s.facts = st.facts
         s._next = st._next
+        s.closed_defs = st.closed_defs
         v = self.pure(node.args[0], s)
+        st.closed_defs = s.closed_defs
         for rid, h in s.heap.items():
             if rid not in heap and rid not in st.heap:
                 st.heap[rid] = h
